@@ -219,8 +219,8 @@ theorem read_loop_tie (W : Net.World ω) (E : Engine σ) (buf : Bytes) (fuel siz
 /-! ### the entry points, relative to the retry loops
 
 The entry points are first tied under the hypothesis that the retry loop they call corresponds to the model's (`ReadCorr` /
-`WriteCorr`, lemmas `*_rel`); `ReadCorr` is a theorem (`tie_Read`), so the receiving entry points are tied unconditionally at
-the end of this file. -/
+`WriteCorr`, lemmas `*_rel`); both are theorems (`tie_Read`, `tie_Write`, given libssl's contracts), so the entry points are
+tied unconditionally at the end of this file. -/
 
 /-- "`Gen.Tls_Read` corresponds to `tlsRead`" (count for bytes; the final world is the model's final state) -/
 def ReadCorr (W : Net.World ω) (E : Engine σ) (buf : Bytes) (fuel size : Nat) : Prop :=
@@ -245,6 +245,117 @@ theorem tie_Read (W : Net.World ω) (E : Engine σ) (buf : Bytes) (fuel size : N
 def WriteCorr (W : Net.World ω) (E : Engine σ) (buf : Bytes) (fuel : Nat) : Prop :=
   ∀ w : TWSt σ ω, ∃ a r, Gen.Tls_Write (tlsWorld W E buf) fuel 0 buf.length w
     = (resOfOut (fun (n : Nat) => (n : Int)) (tlsWrite CfgN W E w.s buf).1, ⟨(tlsWrite CfgN W E w.s buf).2, a, r⟩)
+
+/-! ### the retry loop of `Write(data, size)` -/
+
+/-- libssl's promise for `SSL_write_ex`: success means at least one and at most all of the bytes were taken -/
+def WriteContract (E : Engine σ) : Prop :=
+  ∀ e bs, AllLeaves (fun ans _ _ => ∀ k, ans = .done k → 0 < k ∧ k ≤ bs.length) (E.sslWrite e bs)
+
+theorem slice_drop (buf : Bytes) (off : Nat) :
+    slice buf (off : Int) ((0 + (buf.length : Int)) - (off : Int)) = buf.drop off := by
+  simp only [slice, Int.toNat_natCast]
+  apply List.take_of_length_le
+  simp only [List.length_drop]
+  omega
+
+theorem slice_drop' (buf : Bytes) (off : Nat) :
+    slice buf (off : Int) ((buf.length : Int) - (off : Int)) = buf.drop off := by
+  have := slice_drop buf off
+  simpa using this
+
+theorem fixRoundN : CfgN.fixRoundReset = true := rfl
+
+/-- the loop of `Write` on the caller's buffer from offset `off`: `i` rounds left in the model = loop variable `11 - i` -/
+theorem write_loop_tie (W : Net.World ω) (E : Engine σ) (buf : Bytes) (fuel : Nat) (hb : buf.length < 9223372036854775808)
+    (hE : WriteContract E) :
+    ∀ (n i off : Nat) (iv : Int) (w : TWSt σ ω), iv = 11 - (i : Int) → i ≤ 10 → off ≤ buf.length →
+      (buf.length - off) * 11 + i < n →
+      ∃ a r, Gen.Tls_Write_loop1 (tlsWorld W E buf) fuel 0 buf.length n off iv w
+        = (resOfOut (fun (rest : Bytes) => ((buf.length - rest.length : Nat) : Int)) (writeLoop CfgN W E i (buf.drop off) w.s).1,
+           ⟨(writeLoop CfgN W E i (buf.drop off) w.s).2, a, r⟩) := by
+  intro n
+  induction n with
+  | zero => intro i off iv w _ _ _ hm; omega
+  | succ n ih =>
+    intro i off iv w hiv hi hoff hm
+    have hret : (((buf.length : Int) - ((0 + (buf.length : Int)) - (off : Int))) % 18446744073709551616) = (off : Int) := by omega
+    have hlen : (buf.drop off).length = buf.length - off := List.length_drop
+    have hres : ((buf.length - (buf.drop off).length : Nat) : Int) = (off : Int) := by rw [hlen]; omega
+    cases i with
+    | zero =>
+      have h1 : ¬ (iv ≤ 10) := by omega
+      refine ⟨w.ans, w.rx, ?_⟩
+      rw [writeLoop]
+      simp (disch := omega) [Gen.Tls_Write_loop1, h1, Gen.M.pure, resOfOut, hret, hres]
+      omega
+    | succ i' =>
+      have hle : iv ≤ 10 := by omega
+      by_cases hfull : off = buf.length
+      · refine ⟨w.ans, w.rx, ?_⟩
+        have he : buf.drop off = [] := by rw [hfull]; exact List.drop_length
+        have h0 : ((0 + (buf.length : Int)) - (off : Int)) = 0 := by omega
+        rw [writeLoop]
+        simp [Gen.Tls_Write_loop1, h0, he, Gen.M.pure, resOfOut, hfull]
+        omega
+      · have hne : buf.drop off ≠ [] := by
+          intro h; have := congrArg List.length h; simp at this; omega
+        have h0 : ¬ (((0 + (buf.length : Int)) - (off : Int)) = 0) := by omega
+        have hspec := (interp_spec (W := W) _ _ (hE w.s.e (buf.drop off)) w.s).2.2.1
+        rw [writeLoop]
+        simp only [Gen.Tls_Write_loop1, Gen.M.bind, tw_sslWriteEx, slice_drop, hle, h0, not_false_eq_true, and_self, if_true,
+          hne, if_false, writeRound, assertsN, Bool.false_eq_true, false_and]
+        rcases hI : interp W w.s (E.sslWrite w.s.e (buf.drop off)) with ⟨o, s1⟩
+        rw [hI] at hspec
+        rcases o with ⟨ans, out⟩ | x | m
+        · have hc := hspec ans out rfl
+          cases hA : ans with
+          | done k =>
+            obtain ⟨hk0, hk1⟩ := hc k hA
+            rw [hlen] at hk1
+            have hd : roundDecreases (buf.drop off) i' ((buf.drop off).drop k) 10 :=
+              Or.inl (by simp only [List.length_drop]; omega)
+            obtain ⟨a, r, h⟩ := ih 10 (off + k) 1 ⟨setPending (noteCall E s1 false (buf.drop off) (.done k)) [], .done k, w.rx⟩
+              (by omega) (by omega) (by omega) (by omega)
+            have hcast : ((off + k : Nat) : Int) = (off : Int) + (k : Int) := by omega
+            have hs0 : slice buf 0 0 = [] := by simp [slice]
+            simp only [hcast, List.drop_drop] at h hd
+            refine ⟨a, r, ?_⟩
+            simp [hk0, fixRoundN, stepsMaxN, hd, Gen.M.bind, hs0, h, List.drop_drop]
+          | _ =>
+            all_goals
+              rcases hH : handleResult W (setPending (noteCall E s1 false (buf.drop off) ans) (buf.drop off)) ans with ⟨ho, s3⟩
+              simp only [hA] at hH
+              have hd : roundDecreases (buf.drop off) i' (buf.drop off) i' := Or.inr ⟨rfl, Nat.le_refl _⟩
+              rcases ho with b | x | m
+              · cases b
+                · exact ⟨ans, w.rx, by simp [hA, hH, writeRetry, resOfOut, Gen.M.pure, Gen.M.bind, tie_HandleResult, slice_drop, slice_drop', hret, hres]; omega⟩
+                · obtain ⟨a, r, h⟩ := ih i' off (iv + 1) ⟨s3, ans, w.rx⟩ (by omega) (by omega) hoff (by omega)
+                  simp only [hA] at h
+                  exact ⟨a, r, by simp [hA, hH, writeRetry, resOfOut, Gen.M.pure, Gen.M.bind, tie_HandleResult, slice_drop, slice_drop', assertsN, hd, h]⟩
+              · exact ⟨ans, w.rx, by simp [hA, hH, writeRetry, resOfOut, Gen.M.bind, tie_HandleResult, slice_drop, slice_drop']⟩
+              · exact ⟨ans, w.rx, by simp [hA, hH, writeRetry, resOfOut, Gen.M.bind, tie_HandleResult, slice_drop, slice_drop']⟩
+        · exact ⟨w.ans, w.rx, by simp [resOfOut]⟩
+        · exact ⟨w.ans, w.rx, by simp [resOfOut]⟩
+
+/-- `Write(data, size)` on the whole buffer: `HandleLastError()`, then the retry loop -/
+theorem tie_Write (W : Net.World ω) (E : Engine σ) (buf : Bytes) (fuel : Nat) (hb : buf.length < 9223372036854775808)
+    (hE : WriteContract E) (hf : buf.length * 11 + 10 < fuel) : WriteCorr W E buf fuel := by
+  intro w
+  simp only [Gen.Tls_Write, tlsWrite, Gen.M.bind, tie_HandleLastError, stepsMaxN]
+  rcases handleLastError W w.s with ⟨o, s'⟩
+  rcases o with b | x | m
+  · cases b
+    · exact ⟨w.ans, w.rx, by simp [resOfOut, Gen.M.pure]⟩
+    · obtain ⟨a, r, h⟩ := write_loop_tie W E buf fuel hb hE (Gen.loopFuel fuel) 10 0 1 ⟨s', w.ans, w.rx⟩ (by omega)
+        (by omega) (by omega) (by simp only [Gen.loopFuel]; omega)
+      simp only [List.drop_zero, Int.natCast_zero] at h
+      refine ⟨a, r, ?_⟩
+      rcases hw : writeLoop CfgN W E 10 buf s' with ⟨o2, s2⟩
+      rw [hw] at h
+      cases o2 <;> simp [resOfOut, h, hw]
+  · exact ⟨w.ans, w.rx, by simp [resOfOut]⟩
+  · exact ⟨w.ans, w.rx, by simp [resOfOut]⟩
 
 /-- `Receive(data, size, timeout)`: `nullopt` for no bytes, and (319faf2) a stale WANT_READ is reset once the
 handshake is finished -/
@@ -271,7 +382,7 @@ theorem receiveT_rel (W : Net.World ω) (E : Engine σ) (buf : Bytes) (fuel size
         simp [resOfOut, Gen.M.pure, Gen.M.bind, CfgN, Cfg.current, codeOf, hl, hi, setLastError, errOf]
 
 /-- `Send(data, size, timeout)`: (ee81033) a stale WANT_WRITE is reset once the handshake is finished -/
-theorem tie_SendT (W : Net.World ω) (E : Engine σ) (buf : Bytes) (fuel : Nat) (hW : WriteCorr W E buf fuel)
+theorem sendT_rel (W : Net.World ω) (E : Engine σ) (buf : Bytes) (fuel : Nat) (hW : WriteCorr W E buf fuel)
     (t : Int) (w : TWSt σ ω) :
     ∃ a r, Gen.Tls_SendT (tlsWorld W E buf) fuel 0 buf.length t w
       = (resOfOut (fun (n : Nat) => (n : Int)) (sendT CfgN W E w.s buf t).1, ⟨(sendT CfgN W E w.s buf t).2, a, r⟩) := by
@@ -325,7 +436,7 @@ theorem receiveReadable_rel (W : Net.World ω) (E : Engine σ) (buf : Bytes) (fu
      · simp [h, resOfOut, setLastError, errOf])
 
 /-- `SendSome(data, size)` (driver: writable): zero budget, `isWritable`, a cached WANT_WRITE forgotten -/
-theorem tie_SendSomeWritable (W : Net.World ω) (E : Engine σ) (buf : Bytes) (fuel : Nat) (hW : WriteCorr W E buf fuel)
+theorem sendSomeWritable_rel (W : Net.World ω) (E : Engine σ) (buf : Bytes) (fuel : Nat) (hW : WriteCorr W E buf fuel)
     (w : TWSt σ ω) :
     ∃ a r, Gen.Tls_SendSomeWritable (tlsWorld W E buf) fuel 0 buf.length w
       = (resOfOut (fun (n : Nat) => (n : Int)) (sendSomeWritable CfgN W E w.s buf).1,
@@ -397,5 +508,20 @@ theorem tie_DriverPending (W : Net.World ω) (E : Engine σ) (buf : Bytes) (fuel
       = (resOfOut id (driverPending CfgN W E w.s).1,
          if E.initFinished w.s.e then w else ⟨(driverPending CfgN W E w.s).2, a, r⟩) :=
   driverPending_rel W E buf fuel (tie_Read W E buf fuel 64 (by decide) hE hf) w
+
+/-! ### the sending entry points, unconditionally (given libssl's `SSL_write_ex` contract and fuel for the rounds) -/
+
+theorem tie_SendT (W : Net.World ω) (E : Engine σ) (buf : Bytes) (fuel : Nat) (hb : buf.length < 9223372036854775808)
+    (hE : WriteContract E) (hf : buf.length * 11 + 10 < fuel) (t : Int) (w : TWSt σ ω) :
+    ∃ a r, Gen.Tls_SendT (tlsWorld W E buf) fuel 0 buf.length t w
+      = (resOfOut (fun (n : Nat) => (n : Int)) (sendT CfgN W E w.s buf t).1, ⟨(sendT CfgN W E w.s buf t).2, a, r⟩) :=
+  sendT_rel W E buf fuel (tie_Write W E buf fuel hb hE hf) t w
+
+theorem tie_SendSomeWritable (W : Net.World ω) (E : Engine σ) (buf : Bytes) (fuel : Nat) (hb : buf.length < 9223372036854775808)
+    (hE : WriteContract E) (hf : buf.length * 11 + 10 < fuel) (w : TWSt σ ω) :
+    ∃ a r, Gen.Tls_SendSomeWritable (tlsWorld W E buf) fuel 0 buf.length w
+      = (resOfOut (fun (n : Nat) => (n : Int)) (sendSomeWritable CfgN W E w.s buf).1,
+         ⟨(sendSomeWritable CfgN W E w.s buf).2, a, r⟩) :=
+  sendSomeWritable_rel W E buf fuel (tie_Write W E buf fuel hb hE hf) w
 
 end SockModel.Props.C18Tie
